@@ -21,6 +21,9 @@ CHECKS = {
  "C03": ("exhaustive enumeration of relation graphs (all sets of <=k catalogue edges) x all orderings of all token subsets, independent relation evaluator as oracle on every successful parse, under a stall/abort supervisor",
          "Every relation graph with <=3 (quick) / <=4 (thorough) edges from a ~75-edge catalogue (conflicts arg/group both ways, exclusive, overrides, requires, requires_if, groups multiple/required/requires/conflicts, required, required_unless any/all, required_if_eq any/all, defaults, env, subcommand settings) that clap's gate accepts x every sequence of distinct tokens of length <=4/3. On every Ok the explicit-presence set must satisfy the independent evaluator R2. Exhaustive within these bounds; a parse that does not return is isolated by the supervisor and reported.",
          "Trusted: relation evaluator R2 (mc/model/src/r2.rs), written from the Arg/ArgGroup documentation, with the lenient group-exemption reading. One-directional (over-strict rejections are C10's business).", "DESIGN.md §3.6, §4 C03"),
+ "C05": ("exhaustive enumeration of trailing-positional configurations x spelled prefixes x tail prefix tree over hostile token shapes, differential oracle against the prefix-alone parse",
+         "Every trailing-positional configuration (0../1.. x plain/last x with/without a leading positional x String/OsString x <=2 of 14 surrounding features) x 11 prefixes x every tail in T^<=2 (quick) / T^<=3 (thorough), T = 17 token shapes (help/version requests, flags, option spellings, subcommand names and prefixes, `--`, empty, `-`, delimiter, non-UTF-8). `prefix -- tail` must deliver the tail byte-for-byte to the positionals, dispatch no subcommand, produce no help/version request, and leave flags/options as in the parse of the prefix alone. Exhaustive within these bounds.",
+         "Trusted: the construction of the expected positional values from prefix and tail (checks/src/bin/c05.rs). Configurations whose positional turns `--` into a value by documentation (allow_hyphen_values / trailing_var_arg already collecting) only get prefixes that leave it untouched.", "DESIGN.md §4 C05"),
 }
 PENDING_REASON = "check not built yet in this round (design in DESIGN.md §4); will be claimed when its checker exists"
 props = [json.loads(l) for l in open('/verif/properties.jsonl')]
